@@ -12,9 +12,9 @@ ANGLES = {
     2: "prefer a defect in how the program WIRES THINGS TOGETHER (src/main.cpp, factories, constructors delegating to each other, units and scale factors handed from one component to the next), which only shows for a non-default but legal combination of options",
     3: "prefer a defect in a RARELY TAKEN BRANCH (multi-bunch filling with empty buckets, non-default interpolation/derivation/tracking settings, start distributions from files, odd sizes, the last element of a range)",
 }
-def short(t, n=170):
+def short(t, n=260):
     t = re.sub(r'\s+', ' ', t or '').strip()
-    m = re.match(r'(.{40,%d}?[.;:])\s' % n, t + ' ')
+    m = re.match(r'(.{120,%d}?[.;])\s' % n, t + ' ')
     return (m.group(1) if m else t[:n]).rstrip('.;:')
 def main():
     rd = sys.argv[1]; ids = sys.argv[2:]
